@@ -46,6 +46,9 @@ Record tcase := {
   o_copy : option (bool * Z * Z * Z * Z);
   (* copy mode through the context-supporting HTTP transform: how many source entities carry a nested entity (0 otherwise) *)
   c_nested : Z;
+  (* copy mode: the transform service fails ONCE, on the first request of the final full-sync run: that run must end as failed
+     (the driver reports -2 for it), not be recorded as a success with a page missing *)
+  c_ffail : bool;
   (* value-normalisation case (entity.go toJsonValue called directly): a Go value, its image after a pass through JavaScript,
      and what toJsonValue returned for each; None = not such a case *)
   o_json : option (gval Fz * gval Fz * jval Fz * jval Fz)
@@ -79,7 +82,7 @@ Definition agree_copy (c : tcase) (hn : bool) (oc : N) (outs : list (list Z)) (c
   && (if N.eqb oc 0 then
         Bool.eqb eq (zlist_eqb (concat outs) src)
         && Z.eqb rch (c_n c) && Z.eqb dch (Z.of_nat (length (concat outs)))
-        && Z.eqb re again && Z.eqb fu again
+        && Z.eqb re again && Z.eqb fu (if c_ffail c then -2 else again)
       else true).
 
 Definition agree (m : part_mode) (hn : bool) (c : tcase) : bool :=
@@ -111,7 +114,7 @@ Definition spec_ok (c : tcase) : bool :=
   match o_copy c with
   | Some (eq, dch, rch, re, fu) =>
     (* equivalent to a plain copy; running it again produces no new change *)
-    N.eqb (o_outcome c) 0 && eq && Z.eqb dch rch && Z.eqb re 0 && Z.eqb fu 0
+    N.eqb (o_outcome c) 0 && eq && Z.eqb dch rch && Z.eqb re 0 && Z.eqb fu (if c_ffail c then -2 else 0)
   | None =>
   N.eqb (o_outcome c) 0
   && (if c_wrap c then zlist_eqb (concat (o_seen c)) src else true)
